@@ -233,9 +233,11 @@ func runReadCase(r *ev.Run, n int, distinct bool, c *rcase) {
 			}
 			rc, size, err := cl.s.Fetch(ctx, b.Ref)
 			var data []byte
+			streamBroke := false
 			if err == nil {
 				data, err = io.ReadAll(rc)
 				rc.Close()
+				streamBroke = err != nil
 			}
 			for _, nd := range cl.read {
 				nd.plan.ClearFaults() // a fault on a replica the fetch never reached must not leak into the next fetch
@@ -245,6 +247,10 @@ func runReadCase(r *ev.Run, n int, distinct bool, c *rcase) {
 			r.Count("fetches", 1)
 			wit := map[string]any{"case_id": c.ID, "pattern": c, "blob": b.String(), "holders_mask": holders, "failing_mask": E}
 			switch {
+			case serving != 0 && streamBroke:
+				// Fetch reported success (size %d) but the stream it returned cannot be read to the end
+				r.Violation(fmt.Sprintf("fetch-stream-unreadable/n%d", n),
+					fmt.Sprintf("[%s] fetch of %v returned a stream (size %d) that fails after %d of %d bytes: %v; healthy read replicas %s hold the blob (their streams stay bound to the context their Fetch was called with; the caller's context never ended)", cl.cfg(), b.Ref, size, len(data), len(b.Data), err, maskNames(cl, serving)), wit)
 			case serving != 0 && err != nil:
 				r.Violation(fmt.Sprintf("fetch-missed-replica/n%d", n),
 					fmt.Sprintf("[%s] fetch of %v failed (%v): read replicas %s hold it and are healthy (failing replicas: %s)", cl.cfg(), b.Ref, err, maskNames(cl, serving), maskNames(cl, E)), wit)
